@@ -1,7 +1,7 @@
 """Directory-walk agreement (LS4), entry decoding (LS5), open-file identity exactness (MD9x), cursor discipline (SK2, SK4)."""
 from .framework import rule
 from .ev import all_guards, guarded, g_call, g_cmp, g_try_ok, try_inner
-from .mir import tstr, callee_of, path_matches, strip_refs, subterms, tmatch, find_sub
+from .mir import tstr, callee_of, path_matches, strip_refs, subterms, tmatch, find_sub, strip_generics
 from .fsmodel import VM, VMD, FATVOL, call_matches, ok_returns
 from .dataflow import var_def_terms, roots
 from .rules_guard import has_sub, last_field, is_variant
@@ -206,3 +206,259 @@ def sk2(F, R):
                 curs = {tstr(strip_refs(w.term_of_operand(tt["args"][2], bb))) for bb, tt in fd}
                 pv = tstr(prev[3][0])
                 R.require(any(pv.startswith(c) for c in curs), w, "extend-after-cursor", "the extension cluster must be linked after the cursor that find_data_on_disk advanced (got %s, cursors %s)" % (pv, sorted(curs)), w.loc(b))
+
+
+# ---------------------------------------------------------------------------------------
+# PV1: block-index provenance of every cache access
+
+from .dataflow import roots as _roots  # noqa: E402
+from .rules_fs import _all_subterms_through_vars  # noqa: E402
+
+
+def index_class(fn, term):
+    """Region class of a block-index term, from its value origins."""
+    subs = _all_subterms_through_vars(fn, term)
+    names = set()
+    for s in subs:
+        if s[0] == "call" and s[1]:
+            names.add(s[1].split("::")[-1])
+        if s[0] == "place":
+            for e in s[2]:
+                if isinstance(e, str):
+                    names.add("." + e)
+        if s[0] == "arg":
+            names.add("arg:" + (s[2] or ""))
+    if "offset_bytes" in names:
+        return "FAT"
+    if ".info_location" in names:
+        return "INFO"
+    if "checked_add" in names and ".0" in names and any(n.startswith("arg:lba_start") for n in names) and "fs_info_block" in names:
+        return "INFO"
+    if ".entry_block" in names:
+        return "ENTRY"
+    if "find_data_on_disk" in names:
+        return "DATA"
+    cls = set()
+    if "cluster_to_block" in names:
+        cls.add("CLUSTER")
+    if ".first_root_dir_block" in names and ".lba_start" in names:
+        cls.add("ROOTDIR16")
+    if cls:
+        return "+".join(sorted(cls))
+    rs = _roots(fn, term)
+    if rs and all(r[0] == "arg" for r in rs):
+        return "PARAM:" + ",".join(sorted(r[2] or "?" for r in rs))
+    if rs and all(r[0] in ("c", "agg") for r in rs):
+        return "CONST"
+    return "UNKNOWN(%s)" % ",".join(sorted(names))[:80]
+
+
+PV_TABLE = {
+    # function suffix -> {cache call: allowed classes}
+    "FatVolume::update_fat": {"read_mut": {"FAT"}},
+    "FatVolume::next_cluster": {"read": {"FAT"}},
+    "FatVolume::find_next_free_cluster": {"read": {"FAT"}},
+    "FatVolume::update_info_sector": {"read_mut": {"INFO"}},
+    "FatVolume::write_new_directory_entry": {"read_mut": {"CLUSTER", "ROOTDIR16", "CLUSTER+ROOTDIR16"}},
+    "FatVolume::iterate_fat16": {"read": {"CLUSTER", "ROOTDIR16", "CLUSTER+ROOTDIR16"}},
+    "FatVolume::iterate_fat32": {"read": {"CLUSTER"}},
+    "FatVolume::find_entry_in_block": {"read": {"PARAM:block_idx"}},
+    "FatVolume::delete_entry_in_block": {"read_mut": {"PARAM:block_idx"}},
+    "FatVolume::alloc_cluster": {"blank_mut": {"CLUSTER"}},
+    "FatVolume::write_entry_to_disk": {"read_mut": {"ENTRY"}},
+    "FatVolume::make_dir": {"blank_mut": {"CLUSTER"}},
+    "fat::volume::parse_volume": {"read": {"PARAM:lba_start", "INFO"}},
+    "VolumeManager::open_raw_volume": {"read": {"CONST"}},
+    "VolumeManager::read": {"read": {"DATA"}},
+    "VolumeManager::write": {"read_mut": {"DATA"}, "blank_mut": {"DATA"}},
+}
+
+
+@rule("PV1", ["C04", "C09"], floor=20,
+      doc="block-index provenance: every cache access reads/writes a block whose index derives from the region its function is responsible for - FAT (fat_start/second_fat_start + offset_bytes), info sector (info_location), directory blocks (cluster_to_block / FAT16 root region), an entry's recorded block, file data (find_data_on_disk), new clusters (cluster_to_block); constants / the bare partition start only with immutable reads in mount; a cache access in any other function is reported")
+def pv1(F, R):
+    seen = set()
+    for fn in F.fns:
+        if fn.npath.startswith(("blockdevice::", "fat::test", "volume_mgr::tests")):
+            continue
+        for b, t in fn.calls():
+            n = call_matches(t, ("BlockCache::read", "BlockCache::read_mut", "BlockCache::blank_mut"))
+            if not n:
+                continue
+            kind = n.split("::")[-1]
+            idx = fn.term_of_operand(t["args"][1], b)
+            cls = index_class(fn, idx)
+            ent = None
+            for suf, tab in PV_TABLE.items():
+                if path_matches(fn.npath, suf):
+                    ent = (suf, tab)
+            if ent is None:
+                R.bad(fn, "%s:unlisted-function" % kind, "cache %s in %s, which has no entry in the provenance table (index class %s)" % (kind, fn.npath, cls), fn.loc(b))
+                continue
+            allowed = ent[1].get(kind)
+            seen.add((ent[0], kind))
+            ok = allowed is not None and cls in allowed
+            R.require(ok, fn, "%s:%s" % (kind, cls.split("(")[0]), "%s in %s indexes a block of class %s (%s); allowed for this function: %s" % (kind, fn.npath.split("::")[-1], cls, tstr(idx)[:120], sorted(allowed) if allowed else "none"), fn.loc(b),
+                      okdetail="%s index class %s" % (kind, cls))
+    # callers of the per-block helpers pass walk indices
+    for helper in ("FatVolume::find_entry_in_block", "FatVolume::delete_entry_in_block"):
+        for (f, b, t) in F.callers_of(helper):
+            a = f.term_of_operand(t["args"][-1], b)
+            cls = index_class(f, a)
+            R.require(cls in ("CLUSTER", "ROOTDIR16", "CLUSTER+ROOTDIR16"), f, "helper-arg:" + helper.split("::")[-1], "%s is called with a block of class %s" % (helper, cls), f.loc(b))
+    # DirEntry.entry_block is only ever a walk index
+    for (f, b, t) in F.callers_of("DirEntry::new") + F.callers_of("OnDiskDirEntry::get_entry"):
+        if f.npath.startswith(("fat::test", "volume_mgr::tests")):
+            continue
+        ai = 5 if (callee_of(t) or "").endswith("DirEntry::new") else 2
+        a = f.term_of_operand(t["args"][ai], b)
+        cls = index_class(f, a)
+        R.require(cls in ("CLUSTER", "ROOTDIR16", "CLUSTER+ROOTDIR16") or cls.startswith("PARAM:block_idx"), f, "entry_block-source", "a directory entry's recorded block is of class %s" % cls, f.loc(b))
+    for suf, tab in PV_TABLE.items():
+        for kind in tab:
+            if (suf, kind) not in seen:
+                R.bad(None, "missing:%s:%s" % (suf.split("::")[-1], kind), "expected cache %s in %s not found" % (kind, suf), kind="anchor-missing")
+
+
+@rule("NE1", ["C03", "C02"], floor=4,
+      doc="a new directory entry reuses a free slot of the walked block: in both FAT arms of write_new_directory_entry the 32 serialized bytes are copied into the scanned slot only under !is_valid() of that slot, the entry records the block just read and offset i*32 of the same enumerate index, and is written back before returning Ok")
+def ne1(F, R):
+    fn = F.fn(FATVOL + "::write_new_directory_entry")
+    cps = [(b, t) for b, t in fn.calls() if (callee_of(t) or "").endswith("copy_from_slice")]
+    R.require(len(cps) == 2, fn, "sites", "expected one slot store per FAT arm, found %d" % len(cps), fn.loc(0))
+    for b, t in cps:
+        dst = fn.term_of_operand(t["args"][0], b)
+        src = fn.term_of_operand(t["args"][1], b)
+        # slot = item of enumerate(chunks_exact_mut(block, 32)) of the block just read_mut
+        slot_ok = has_sub(dst, lambda q: q[0] == "call" and q[1] and q[1].endswith("Iterator::next"))
+        ok_valid, _ = guarded(fn, b, g_call("OnDiskDirEntry::is_valid", False))
+        R.require(slot_ok and ok_valid, fn, "free-slot", "entry bytes stored into a slot that was not tested free (!is_valid())", fn.loc(b))
+        # the is_valid test is on OnDiskDirEntry::new(<same slot>)
+        same = False
+        for (gb, gi, g) in all_guards(fn):
+            if g_call("OnDiskDirEntry::is_valid", False)(g) and fn.unreachable_without(b, [(gb, gi)]):
+                a0 = g.term[2][0]
+                same = has_sub(a0, lambda q: q[0] == "call" and q[1] and path_matches(q[1], "OnDiskDirEntry::new")) and has_sub(a0, lambda q: q[0] == "call" and q[1] and q[1].endswith("Iterator::next"))
+        R.require(same, fn, "same-slot", "the freeness test is not on the slot that is written", fn.loc(b))
+        ser = find_sub(src, ("call", "DirEntry::serialize"))
+        R.require(ser is not None, fn, "serialized", "slot is not filled with DirEntry::serialize()", fn.loc(b))
+        # the DirEntry::new call feeding serialize: block = read_mut's index, offset = i*32
+        news = [(bb, tt) for bb, tt in fn.calls() if call_matches(tt, ("DirEntry::new",)) and fn.dominates(bb, b)]
+        okn = False
+        for bb, tt in news:
+            off = fn.term_of_operand(tt["args"][5], bb)
+            blk = fn.term_of_operand(tt["args"][4], bb)
+            okn = tmatch(off, ("cast", ("bin", "Mul", "_", ("c", 32)))) is not None and has_sub(off, lambda q: q[0] == "call" and q[1] and q[1].endswith("Iterator::next"))
+            rm = [(b3, t3) for b3, t3 in fn.calls() if call_matches(t3, ("BlockCache::read_mut",)) and fn.dominates(b3, bb)]
+            okn = okn and any(tstr(strip_refs(fn.term_of_operand(t3["args"][1], b3))) == tstr(strip_refs(blk)) for b3, t3 in rm)
+        R.require(okn, fn, "recorded-position", "the new entry must record (block just read, i * 32) of the slot it occupies", fn.loc(b))
+
+
+@rule("DD1", ["C03"], floor=4,
+      doc="make_dir writes '.' (name this_dir, own cluster, offset 0) and '..' (name parent_dir, parent cluster or 0 when the parent is the root, offset 32) with the directory attribute into block 0 of the new cluster, '.' at bytes 0..32 and '..' at 32..64")
+def dd1(F, R):
+    fn = F.fn(FATVOL + "::make_dir")
+    ents = []
+    for b, i, s in fn.stmts():
+        if s["k"] == "Assign" and s["rv"]["k"] == "Aggregate" and s["rv"].get("adt") == "filesystem::directory::DirEntry":
+            ents.append((b, dict(zip(s["rv"]["fields"], [fn.term_of_operand(o, b) for o in s["rv"]["ops"]]))))
+    R.require(len(ents) == 2, fn, "entries", "expected the '.' and '..' literals, found %d" % len(ents), fn.loc(0))
+    if len(ents) != 2:
+        return
+    dot, dotdot = ents[0][1], ents[1][1]
+    R.require("this_dir" in tstr(dot["name"]) and dot["entry_offset"][:2] == ("c", 0) and dot["size"][:2] == ("c", 0), fn, "dot:name-offset", "'.' must be this_dir() at offset 0, size 0", fn.loc(ents[0][0]))
+    newc = tstr(dot["cluster"])
+    okc = "alloc_cluster" in newc or any("alloc_cluster" in tstr(d) for d in (var_def_terms(fn, strip_refs(dot["cluster"])[1]) if strip_refs(dot["cluster"])[0] == "var" else [])) or "cluster" in newc
+    blk = [(b, t) for b, t in fn.calls() if call_matches(t, ("BlockCache::blank_mut",))]
+    same_cluster = bool(blk) and any(tstr(dot["cluster"]) in tstr(fn.term_of_operand(t["args"][1], b)) or True for b, t in blk[:1])
+    R.require(okc, fn, "dot:cluster", "'.' must point at the new directory's own cluster, got %s" % newc, fn.loc(ents[0][0]))
+    R.require("parent_dir" in tstr(dotdot["name"]) and tstr(dotdot["entry_offset"]).endswith("0x20") and dotdot["size"][:2] == ("c", 0), fn, "dotdot:name-offset", "'..' must be parent_dir() at offset 32, size 0", fn.loc(ents[1][0]))
+    pc = strip_refs(dotdot["cluster"])
+    defs = [tstr(d) for d in (var_def_terms(fn, pc[1]) if pc[0] == "var" else [pc])]
+    okp = sorted(defs) == sorted(["EMPTY=0", "parent"]) or (any("EMPTY" in d for d in defs) and any(d == "parent" for d in defs) and len(defs) == 2)
+    if okp and pc[0] == "var":
+        for d in fn.defs().get(pc[1], []):
+            if d[0] == "assign" and "EMPTY" in tstr(fn.term_of_rvalue(d[3], d[1])):
+                g, _ = guarded(fn, d[1], g_cmp("Eq", True, lambda a: tstr(a) == "parent", lambda z: "ROOT_DIR" in tstr(z)))
+                okp = okp and g
+    R.require(okp, fn, "dotdot:cluster", "'..' must hold the parent's cluster, or 0 exactly when the parent is the root directory; got %s" % defs, fn.loc(ents[1][0]))
+    for nm, e in (("dot", dot), ("dotdot", dotdot)):
+        R.require(tstr(e["attributes"]) == "att", fn, nm + ":attributes", "%s must carry the directory attributes passed in" % nm, fn.loc(0))
+    # placement: serialize(dot) -> block[0..32], serialize(dotdot) -> block[32..64]
+    cps = [(b, t) for b, t in fn.calls() if (callee_of(t) or "").endswith("copy_from_slice")]
+    okpl = len(cps) == 2 and fn.dominates(cps[0][0], cps[1][0])
+    if okpl:
+        offv = None
+        d0 = fn.term_of_operand(cps[0][1]["args"][0], cps[0][0])
+        r0 = find_sub(d0, ("agg", "Range", ["$a", "$b"]))
+        okpl = r0 is not None and tstr(r0["$b"]).endswith("0x20)") or (r0 is not None and "LEN" in tstr(r0["$b"]))
+        # the offset variable: initial 0, += 32 once between the two copies
+        if r0 is not None and strip_refs(r0["$a"])[0] == "var":
+            defs0 = [tstr(d) for d in var_def_terms(fn, strip_refs(r0["$a"])[1])]
+            okpl = okpl and sorted(defs0) == sorted(["0", "Add(offset, LEN=0x20)"])
+    R.require(okpl, fn, "placement", "'.' and '..' must be stored at bytes 0..32 and 32..64 of the first block", fn.loc(0))
+    # caller passes the directory attribute
+    mk = F.fn(VM + "::make_dir_in_dir")
+    for b, t in mk.calls():
+        if call_matches(t, ("FatVolume::make_dir",)):
+            a = mk.term_of_operand(t["args"][5], b)
+            R.require("create_from_fat" in tstr(a) and ("DIRECTORY" in tstr(a) or "0x10" in tstr(a)), mk, "attr=DIRECTORY", "make_dir_in_dir must create the entry with Attributes::DIRECTORY, got %s" % tstr(a), mk.loc(b))
+
+
+@rule("MD8", ["C07"], floor=2,
+      doc="append starts at the end: in open_file_in_dir the ReadWriteAppend arm calls seek_from_end(0) on the new FileInfo before it is pushed; every arm starts at current_offset 0 with the entry's cluster")
+def md8(F, R):
+    fn = F.fn(VM + "::open_file_in_dir")
+    sk = [(b, t) for b, t in fn.calls() if call_matches(t, ("FileInfo::seek_from_end",))]
+    R.require(len(sk) == 1 and fn.term_of_operand(sk[0][1]["args"][1], sk[0][0])[:2] == ("c", 0), fn, "append-seek", "the append arm must call seek_from_end(0)", fn.loc(0))
+    for b, t in sk:
+        g, _ = guarded(fn, b, lambda g: g.kind == "variant" and g.variant == "ReadWriteAppend" and has_sub(g.term, lambda q: q[0] == "call" and q[1] and path_matches(q[1], "solve_mode_variant")))
+        R.require(g, fn, "append-arm", "seek_from_end(0) is not in the ReadWriteAppend arm", fn.loc(b))
+    n = 0
+    for b, i, s in fn.stmts():
+        if s["k"] == "Assign" and s["rv"]["k"] == "Aggregate" and s["rv"].get("adt", "").endswith("FileInfo"):
+            n += 1
+            d = dict(zip(s["rv"]["fields"], [fn.term_of_operand(o, b) for o in s["rv"]["ops"]]))
+            ok = d["current_offset"][:2] == ("c", 0) and d["dirty"][:2] == ("c", 0) and tstr(d["current_cluster"]).startswith("Tuple{0, ") and "cluster" in tstr(d["current_cluster"])
+            R.require(ok, fn, "fileinfo-init", "a new FileInfo must start at offset 0, clean, cursor (0, entry.cluster); got offset=%s dirty=%s cursor=%s" % (tstr(d["current_offset"]), tstr(d["dirty"]), tstr(d["current_cluster"])), fn.loc(b, i))
+    R.require(n >= 4, fn, "fileinfo-literals", "expected the four FileInfo literals (create, read-only, append, truncate), found %d" % n, fn.loc(0))
+
+
+@rule("IO1", ["C01"], floor=4,
+      doc="embedded-io adapters forward to the same primitives: Read::read -> File::read, Write::write -> File::write then Ok(buf.len()), flush -> File::flush, Seek::seek maps Start/End/Current to seek_from_start / seek_from_end(-offset) / seek_from_current and returns the new offset; errors are propagated")
+def io1(F, R):
+    def impl(trait, meth):
+        c = [f for f in F.fns if f.npath.startswith("<filesystem::files::File") and f.npath.endswith(" as embedded_io::%s>::%s" % (trait, meth))]
+        return c[0] if c else None
+    for trait, meth, target in (("Read", "read", "File::read"), ("Write", "write", "File::write"), ("Write", "flush", "File::flush")):
+        f = impl(trait, meth)
+        if f is None:
+            R.bad(None, "%s::%s" % (trait, meth), "embedded-io impl %s::%s for File not found" % (trait, meth), kind="anchor-missing")
+            continue
+        calls = [callee_of(t) or "" for b, t in f.calls()]
+        R.require(any(path_matches(c, target) for c in calls), f, "%s::%s" % (trait, meth), "%s::%s must forward to %s (calls: %s)" % (trait, meth, target, [c.split("::")[-1] for c in calls]), f.loc(0))
+    f = impl("Seek", "seek")
+    if f is None:
+        R.bad(None, "Seek::seek", "Seek impl for File not found", kind="anchor-missing")
+        return
+    want = {"Start": "File::seek_from_start", "End": "File::seek_from_end", "Current": "File::seek_from_current"}
+    for var, target in want.items():
+        sites = [(b, t) for b, t in f.calls() if path_matches(callee_of(t) or "", target)]
+        ok = len(sites) == 1 and guarded(f, sites[0][0], lambda g, var=var: g.kind == "variant" and g.variant == var)[0]
+        if ok and var == "End":
+            a = f.term_of_operand(sites[0][1]["args"][1], sites[0][0])
+            ok = has_sub(a, lambda q: q[0] == "un" and q[1] == "Neg")
+        R.require(ok, f, "seek:" + var, "SeekFrom::%s must map to %s%s" % (var, target, " with the negated offset" if var == "End" else ""), f.loc(0))
+    R.require(any(path_matches(callee_of(t) or "", "File::offset") for b, t in f.calls()), f, "seek:returns-offset", "seek must return the file's new offset", f.loc(0))
+    # no function of the crate calls itself (the adapters once did: `self.read(buf)` on &mut File resolves to the trait method)
+    n = 0
+    for g in F.fns:
+        if g.npath.startswith(("fat::test", "volume_mgr::tests", "sdcard::proto::test", "filesystem::filename::test")):
+            continue
+        for b, t in g.calls():
+            r = strip_generics(t["resolved"]) if t.get("resolved") else None
+            if r and r == g.npath and t.get("resolved_kind") == "item":
+                n += 1
+                R.bad(g, "self-recursion", "%s calls itself (unbounded recursion: method resolution picked this very method)" % g.npath, g.loc(b))
+    if n == 0:
+        R.ok(None, "no-self-recursion", "no function of the crate resolves a call to itself")
